@@ -203,10 +203,11 @@ class FlagV(Val):
 
 
 class EnumV(Val):
-    __slots__ = ("dotted",)
+    __slots__ = ("dotted", "value_")
 
-    def __init__(self, dotted: str):
+    def __init__(self, dotted: str, value=None):
         self.dotted = dotted
+        self.value_ = value  # the member's value, for package-defined enums
 
     @property
     def tag(self):
@@ -279,12 +280,13 @@ class Gen(Val):
     """A generator expression bound to a name (or returned) before anything iterates it: its body runs when — and only if —
     something consumes it (a call that receives it, a loop, a comprehension)."""
 
-    def __init__(self, node, env):
+    def __init__(self, node, env, call=None):
         self.node, self.env, self.result = node, env, None
+        self.call = call  # (function, args, kwargs, site) for a call of a generator *function*: its body runs when consumed
 
     @property
     def tag(self):
-        return f"genexp@{getattr(self.node, 'lineno', '?')}"
+        return f"genexp@{getattr(self.node, 'lineno', '?')}" if self.call is None else f"generator {self.call[0].tag}()"
 
 
 class Bound(Val):
